@@ -75,6 +75,14 @@ Theorem C05_transpose : forall (f : list Z -> Q) n labels sh e', NoDup labels ->
 Proof. exact relabel_entry. Qed.
 Print Assumptions C05_transpose.
 
+(* the array axes of a world OBJECT (utils.wcs.array_indices_for_world_objects, used by crop and by the sequence views):
+   those of all its components, ascending - also when the components depend on different axes *)
+Theorem C05_object_axes : forall corr n comps o, StronglySorted lt (object_axes corr n comps o) /\
+  forall a, In a (object_axes corr n comps o) <->
+            (a < n)%nat /\ exists w, (w < length comps)%nat /\ nth w comps (-1) = o /\ cget corr w (n - 1 - a) = true.
+Proof. exact object_axes_spec. Qed.
+Print Assumptions C05_object_axes.
+
 (* non-vacuity: a (2, 3) cube, one extra world axis = 10 x0 + x1 over extra pixel dimensions (x0, x1) mapped to the
    cube's pixel axes (1, 0), i.e. to array axes (0, 1): the array is (2, 3) with entry [i][j] = 10 i + j *)
 Example C05_ec_nonvacuous :
